@@ -213,7 +213,26 @@ def gen_world(rng, rich=True, natives=True, max_depth=3):
         if rng.random() < 0.25 and ar > 0:
             rows = rnd_fact_rows(rng, ar)
         facts.append([name, ar, rows])
-    leaves = [(n, a) for n, a, _ in facts]
+    # size-dependent paths: one predicate with many facts (compiled or dynamic), called twice in one clause with
+    # bound first arguments; or one predicate of arity 13
+    bulk = None
+    if rng.random() < 0.1:
+        bn, ba = rng.choice([('s', 2), ('q', 1), ('t', 3), ('r', 1)])
+        bulk = [bn, ba, rng.choice((26, 34, 40, 70)), rng.choice(('dynamic', 'compiled'))]
+        if bulk[3] == 'compiled':
+            for f_ in facts:
+                if (f_[0], f_[1]) == (bn, ba):
+                    rows_ = list(f_[2])
+                    for i_ in range(bulk[2]):
+                        row_ = [A('abc'[i_ % 3])] + [A('r%d' % i_)] * (ba - 1)
+                        if i_ % 11 == 5:
+                            row_ = [V0] * ba if ba > 1 else [F('f', V0)]      # a non-ground row in the middle
+                        rows_.insert(rng.randrange(len(rows_) + 1) if i_ < 3 else len(rows_), row_)
+                    f_[2] = rows_
+    wide = rng.random() < 0.06
+    if wide:
+        facts.append(['wd', 13, [[A('a')] + [A('m%d' % j) for j in range(11)] + [A('b')], [V0] + [A('x')] * 11 + [V0], [A('c')] + [V1] * 11 + [I(1)]]])
+    leaves = [(n, a) for n, a, _ in facts if n != 'wd']
     rules = []
     # layer 1: helper predicates h1/2, h2/1 over the leaves ; layer 2: p/2 over everything below
     layers = [[('h1', 2), ('h2', 1)], [('p', 2)]]
@@ -248,16 +267,30 @@ def gen_world(rng, rich=True, natives=True, max_depth=3):
         rules.insert(rng.randrange(len(rules) + 1), rng.choice([
             'p(X,Y) :- s(_,Y).', 'p(X,Y) :- t(_,X,_), q(Y).', 'p(X,Y) :- s(X,_), s(_,Y).', 'h2(X) :- s(_,X).',
             'p(X,Y) :- q(_), r(Y), s(X,_).', 'h1(X,Y) :- t(X,_,Y).']))
+    if bulk:
+        bn, ba = bulk[:2]
+        rules.insert(rng.randrange(len(rules) + 1), {('s', 2): 'p(X,Y) :- s(a,X), s(b,Y).', ('q', 1): 'p(X,Y) :- q(X), q(Y).',
+                                                      ('t', 3): 'p(X,Y) :- t(a,X,_), t(b,_,Y).', ('r', 1): 'p(X,Y) :- r(X), r(Y).'}[(bn, ba)])
+    if wide:
+        rules.insert(rng.randrange(len(rules) + 1), 'p(X,Y) :- wd(X,%sY).' % ('_,' * 11))
     native = []
     if natives:
         for n, a, rows in facts:
+            if n == 'wd':
+                if rng.random() < 0.6:
+                    native.append([n, a, rng.choice(['inferred', 'explicit', 'variadic', 'explicit-varargs', 'decorated']), rng.random() < 0.5])
+                continue
             if rng.random() < 0.35:
                 styles = ['inferred', 'explicit', 'variadic', 'decorated', 'prebuilt', 'explicit-varargs', 'delegate', 'partial', 'bound-method', 'callable-object', 'prebuilt-foreign']
                 if n == 'k':
                     styles += ['prebuilt'] * 4
                 native.append([n, a, rng.choice(styles), rng.random() < 0.5])
     dynamic = []
+    if bulk and bulk[3] == 'dynamic':
+        dynamic.append([bulk[0], bulk[1], bulk[2]])
     for n, a, rows in facts:
+        if n == 'wd' or (bulk and bulk[3] == 'dynamic' and (n, a) == (bulk[0], bulk[1])):
+            continue
         if rng.random() < (0.5 if n == 'k' else 0.2):
             dynamic.append([n, a, rng.randrange(1, 3)])
     # query
@@ -299,6 +332,8 @@ def make_native(yp, unify, rows, arity, style, yield_value, ctl, name=None):
     ctl: dict with 'calls' (invocation counter), 'fault' (None or (j, phase)), 'exc'
     (the exception object to raise), 'args' (log of argument type names per call)."""
     from . import terms as _TM
+    if arity > 3 and style in ('bound-method', 'callable-object', 'delegate'):
+        style = 'inferred'          # (those wrappers are written out for arities 0-3 only)
     trows = [[_TM.T(x) for x in row] for row in rows]
     # style 'prebuilt': ground rows are built once, at registration, and reused by every invocation (a Python
     # fact predicate that keeps a table of terms); rows with variables are still built fresh per invocation
@@ -365,6 +400,9 @@ def make_native(yp, unify, rows, arity, style, yield_value, ctl, name=None):
         # a generic `def facts(*args)` registered under an explicit arity (also 0)
         return impl, arity
     wrappers = {0: lambda: impl(), 1: lambda a: impl(a), 2: lambda a, b: impl(a, b), 3: lambda a, b, c: impl(a, b, c)}
+    if arity > 3:
+        ps_ = ','.join('a%d' % i for i in range(arity))
+        wrappers[arity] = eval('lambda %s: impl(%s)' % (ps_, ps_), {'impl': impl})
     if style in ('partial', 'bound-method', 'callable-object'):
         # the same predicate handed to register_function as another kind of callable (arity still inferable)
         import functools
